@@ -498,6 +498,7 @@ func (g *Gen) nextOp(f *sif.FileImage) *Op {
 			op.DI, _ = g.rejectedDI()
 		} else {
 			op.DI = g.validDI(!in.hasPrim)
+			op.Valid = true
 			if len(in.ids) > 0 && r.Chance(1, 10) {
 				op.DI.Src = pick(r, in.ids) // copy of an object of the same image, streamed from it
 			}
